@@ -51,7 +51,7 @@ def characterise(S, self, amount, q):
     val = S.get(self, "_value")
     integer = S.get(self, "integer_positions")
     closeout = And(is_zero(amount + val), Not(is_zero(amount)))
-    coincid = And(Not(closeout), eq(q, -pos))  # rounding landed exactly on minus the position
+    coincid = False  # (was: rounding landed exactly on minus the position took the close-out shortcut - repaired in /repo, no exclusion any more)
     full = full_of(S, self, q)
     full1 = full_of(S, self, q + 1)
     eps = eps_of(amount)
@@ -227,6 +227,22 @@ def verify_allocate(ex, contract, timeout_ms=30000):
             obligs.append(Oblig("SecurityBase.allocate/refuses-bad-price", st.pc, Not(And(Not(is_zero(amount)), Or(is_zero(price), isnan(price)))), "post", P + ("C10",)))
             for cid, f in characterise(Su, recv, amount, q).items():
                 obligs.append(Oblig("SecurityBase.allocate/%s" % cid, st.pc, f, "post", P))
+            # whole units: doing nothing is right only when zero is the largest quantity that fits - the amount is not negative and one unit
+            # costs more than it (given non-negative costs of one unit).  Refuted on the pinned tree inside one recorded region (known finding):
+            # a negative amount smaller than one unit on a flat or short position is rounded towards zero and raises no cash.
+            pos_u, prc_u, mul_u = Su.get(recv, "_position"), Su.get(recv, "_price"), Su.get(recv, "multiplier")
+            unit = prc_u * mul_u
+            integer_u = Su.get(recv, "integer_positions")
+            full1_u = full_of(Su, recv, Num.lift(1))
+            untraded = Or(is_zero(q), isnan(q))
+            closeout_u = And(is_zero(amount + Su.get(recv, "_value")), Not(is_zero(amount)))
+            o = Oblig("SecurityBase.allocate/whole-units:nothing-traded-only-when-no-unit-fits", st.pc,
+                      Implies(And(integer_u, untraded, Not(is_zero(amount)), Not(isnan(amount)), Not(closeout_u), Not(isnan(pos_u)), Not(isnan(Su.get(recv, "_value"))), unit > 0, full1_u >= unit), And(amount >= 0, full1_u > amount)), "post", P)
+            o.regions = [("C05-sub-unit-negative-amount-raises-nothing", And(integer_u, amount < 0, -amount < unit, Not(pos_u > 0)))]
+            if not calls:
+                # exits that return before the search (first guess rounded to zero); a search that ends at q == 0 is outside this clause
+                # (the loop invariant does not relate q to the amount) and is exercised by the bounded stand-in c05_sizing only
+                obligs.append(o)
             # heap: exit heap == update-spec ; transact-spec(q)   (nothing else is touched, probes book nothing)
             keys = list(st.heap.maps.keys()) + [k for k in Sx.heap.maps if k not in st.heap.maps]
             for k in keys:
